@@ -83,6 +83,13 @@ def _cases(tier):
                               [((3,), "genome", 1), ((2, 2), "genome", 1), ((2, 2), "cis", 1), ((4,), "genome", 2), ((1, 3), "genome", 1), ((2, 2), "trans", 1)]):
         out.append(dict(layout=list(layout), K=2, mode=mode, max_iters=2, tol=0.5, blacklist=False, vmax=3 if tier == "quick" else 4,
                         concrete_positions=True, mad_max=mad))
+    # a float64 count column with fractional values: the non-zero filter counts pixels, the count filter sums magnitudes
+    out.append(dict(layout=[3], K=2, mode="genome", max_iters=1, tol=0.5, blacklist=False, vmax=3, concrete_positions=True, float_counts=True))
+    if tier != "quick":
+        out.append(dict(layout=[2, 1], K=2, mode="cis", max_iters=2, tol=0.5, blacklist=False, vmax=3, concrete_positions=True, float_counts=True))
+        out.append(dict(layout=[2, 2], K=2, mode="genome", max_iters=2, tol=0.5, blacklist=False, vmax=3, concrete_positions=True, float_counts=True, mad_max=1))
+    # history: another collection with a different chromosome layout was balanced at the same URI earlier in this process
+    out.append(dict(layout=[2, 1], K=2, mode="cis", max_iters=1, tol=0.5, blacklist=False, vmax=2, concrete_positions=True, prior=[1, 2]))
     # positions symbolic as well (heavier non-linear queries): one small case
     out.append(dict(layout=[2], K=1, mode="genome", max_iters=1, tol=0.5, blacklist=False, vmax=3, concrete_positions=False))
     return out
